@@ -25,7 +25,7 @@ ASSUMPTIONS = [
     "calls passing only one of ref_instance_idx / pred_instance_idx are outside the statement (ambiguous) and not judged",
 ]
 MINIMUM = {"f:absent_label_outside_dtype": 100, "C06.checked": 5000, "C06.checked.clDSC": 100, "C06.relations_checked": 500}
-BUDGET_S = {"quick": 600, "thorough": 900}
+BUDGET_S = {"quick": 1200, "thorough": 900}
 
 DTYPES = [np.uint8, np.int8, np.uint16, np.int16, np.uint32, np.int32, np.uint64, np.int64]
 
